@@ -157,8 +157,11 @@ def make_pool(asm, n, root='/nonexistent-bbc16'):
         else:
             # same label / constant NAMES as other programs with different values (stale-cache bait)
             v = rnd.randrange(1, 30)
-            pool.append(dict(kind='same-names', src='K0 = %d\nL0:\n%s    addi x5, x5, K0\n    j L0\nL1:\n    dw L1\n' % (
-                v, '    nop\n' * rnd.randrange(0, 6))))
+            # the constant's name also varies over spellings that look like hex digits / number fragments: a cache keyed on
+            # the expression TEXT must not take `ADC` or `BEEF` for a literal
+            nm = rnd.choice(['K0', 'K0', 'ADC', 'DAC', 'BEEF', 'CAFE', 'FACE', 'a', 'b', 'ab', 'A', 'x_1', 'E1', 'b_0'])
+            pool.append(dict(kind='same-names', group='sn_' + nm, src='%s = %d\nL0:\n%s    addi x5, x5, %s\n    li x6, %s + 1\n    j L0\nL1:\n    dw L1\n' % (
+                nm, v, '    nop\n' * rnd.randrange(0, 6), nm, nm)))
     for j, p in enumerate(pool):
         p['id'] = j
     return pool
